@@ -26,7 +26,7 @@ import (
 
 // JSON numbers reach a program as floats, so integer arguments travel as the declared query
 // parameters i and j (second and third argument); everything else comes in the body.
-const c02BPrelude = "  ? i: int\n  ? j: int\n  $ a = input.a\n  $ b = input.b\n  $ c = input.c\n  if i != null {\n    b = i\n  }\n  if j != null {\n    c = j\n  }\n"
+const c02BPrelude = "  ? i: int\n  ? j: int\n  ? x: float\n  ? y: float\n  $ a = input.a\n  $ b = input.b\n  $ c = input.c\n  if i != null {\n    b = i\n  }\n  if j != null {\n    c = j\n  }\n  if x != null {\n    b = x\n  }\n  if y != null {\n    c = y\n  }\n"
 
 var c02BBodies = map[string]string{
 	"length":    "> {v: length(a)}",
@@ -44,6 +44,8 @@ var c02BBodies = map[string]string{
 	"index":     "> {v: a[b]}",
 	"arith":     "> {s: b + c, d: b - c, p: b * c}",
 	"div":       "> {q: b / c, r: b % c}",
+	"numcmp":    "> {lt: b < c, le: b <= c, gt: b > c, ge: b >= c, eq: b == c, ne: b != c}",
+	"numsel":    "if b <= c {\n    > {v: \"le\"}\n  }\n  if b >= c {\n    > {v: \"ge\"}\n  }\n  > {v: \"neither\"}",
 }
 
 func c02BuiltinsSource() string {
@@ -60,7 +62,7 @@ func c02BuiltinsSource() string {
 }
 
 
-var c02BuiltinNames = []string{"length", "upper", "lower", "trim", "split", "join", "contains", "replace", "substring", "substring", "substring", "concat", "eq", "lt", "index", "arith", "div"}
+var c02BuiltinNames = []string{"numcmp", "numcmp", "numsel", "length", "upper", "lower", "trim", "split", "join", "contains", "replace", "substring", "substring", "substring", "concat", "eq", "lt", "index", "arith", "div"}
 
 type c02BCase struct {
 	Fn        string        `json:"fn"`
@@ -186,6 +188,11 @@ func genC02B(rt *rapid.T) c02BCase {
 			arr := []interface{}{1, "two", nil, 4.5}[:lang.Spread(rt, "ialen", 5)]
 			c.Args = []interface{}{arr, c02GenIndex(rt, "ii", strings.Repeat("x", len(arr)))}
 		}
+	case "numcmp", "numsel":
+		// numbers as a request can deliver them: ints, and every float strconv accepts (NaN and the
+		// infinities included) through the declared float parameters
+		nums := []interface{}{0, 1, -1, 7, 9007199254740993, 9007199254740992, "float:NaN", "float:Inf", "float:-Inf", "float:1e308", "float:-0", "float:0.5", "float:7", "float:9007199254740992", "float:1e-320"}
+		c.Args = []interface{}{nil, nums[lang.Spread(rt, "ca", len(nums))], nums[lang.Spread(rt, "cb", len(nums))]}
 	case "arith", "div":
 		nums := []interface{}{0, 1, -1, 2, 7, -7, 0.5, -2.5, 2.0, 9007199254740993, -9007199254740993, 4611686018427387904, 1e308, 3}
 		c.Args = []interface{}{nil, nums[lang.Spread(rt, "na", len(nums))], nums[lang.Spread(rt, "nb", len(nums))]}
@@ -219,6 +226,10 @@ func runC02B(c c02BCase) evid.Outcome {
 	in := map[string]interface{}{"a": nil, "b": nil, "c": nil}
 	q := url.Values{}
 	for i, a := range c.Args {
+		if fs, isS := a.(string); isS && strings.HasPrefix(fs, "float:") && i > 0 {
+			q.Set(string(rune('x'+i-1)), strings.TrimPrefix(fs, "float:")) // x, y
+			continue
+		}
 		if n, isInt := a.(int); isInt && i > 0 {
 			q.Set(string(rune('i'+i-1)), fmt.Sprint(n)) // i, j
 			continue
